@@ -465,7 +465,7 @@ func runExpiry(run *hx.Run) {
 			run.Tag(t)
 		}
 		for _, v := range res.viol {
-			run.Violate(v[0], v[1], ops)
+			violate(run, v[0], v[1], ops)
 		}
 		c := cases[i]
 		run.Tag("x:mode:" + modeName(c.server))
@@ -476,6 +476,6 @@ func runExpiry(run *hx.Run) {
 	run.Extra["expiry_timing_retries"] = totalRetries
 	run.Extra["expiry_cases_given_up"] = gaveUp
 	if gaveUp*10 > n {
-		run.Violate("expiry:timing-unusable", fmt.Sprintf("%d of %d expiry cases could not be timed", gaveUp, n), nil)
+		violate(run, "expiry:timing-unusable", fmt.Sprintf("%d of %d expiry cases could not be timed", gaveUp, n), nil)
 	}
 }
